@@ -172,8 +172,8 @@ Init == \E k \in Range(Kinds) \cap SeedKinds, n \in BOOLEAN :
                       ELSE IF DeepAll = "thorough" /\ k \in OrigKinds /\ ~rb THEN "full"
                       ELSE IF DeepSeed(k, n, m) THEN "qw" ELSE "no"
 
-\* wraps applied beyond depth 1 for "qw" seeds (both levels): one representative of every family
-QuickWraps == {1, 4, 5, 6, 7, 9, 11, 12, 16, 19, 21, 22, 25, 27, 29, 30, 33, 35, 37, 44, 45}
+\* wraps applied beyond depth 1 for "qw" seeds (both levels): one representative of every family (17)
+QuickWraps == {1, 4, 5, 6, 7, 11, 19, 22, 25, 27, 29, 30, 33, 35, 37, 44, 45}
 \* second-level wraps of the exhaustive (thorough) run: everything but near-duplicates
 ThoroughWraps2 == (1..NWraps) \ {2, 10, 14, 17, 18, 24, 26, 28, 32, 38, 39, 41, 42, 43, 46, 47}
 Wrap(w, n) == /\ d < MaxDepth
